@@ -3,7 +3,6 @@ package commands
 import (
 	"fmt"
 	"sort"
-	"strconv"
 	"strings"
 
 	"github.com/git-lfs/git-lfs/v3/config"
@@ -238,7 +237,8 @@ func getVerifyStateFor(rawurl string) verifyState {
 		return verifyStateUnknown
 	}
 
-	if enabled, _ := strconv.ParseBool(v); enabled {
+	// The value is a Git boolean: "yes" and "on" are as good as "true".
+	if config.Bool(v, false) {
 		return verifyStateEnabled
 	}
 	return verifyStateDisabled
